@@ -1222,9 +1222,42 @@ class FuncTranslator:
                 return self.block(list(st.body) + rest, env)
         self.fail(st, 'try statement')
 
+    def rewrite_break(self, st):
+        """for x in L: A; if c: B; break; C     ->     brk_ = False; for x in L: if not brk_: A; if c: B; brk_ = True  else: C
+        (the loop keeps iterating but does nothing once the flag is set: same final state for every list).  Only a `break` that is the
+        last statement of a top-level `if` of the loop body is handled; anything else stays untranslatable."""
+        if st.orelse:
+            return None
+        hits = [k for k, b in enumerate(st.body) if isinstance(b, ast.If) and b.body and isinstance(b.body[-1], ast.Break)]
+        if len(hits) != 1:
+            return None
+        k = hits[0]
+        iff = st.body[k]
+        others = st.body[:k] + iff.body[:-1] + iff.orelse + st.body[k + 1:]
+        for o in others:
+            for n in ast.walk(o):
+                if isinstance(n, (ast.Break, ast.Continue, ast.Return, ast.Raise)):
+                    return None
+        self._brk_n = getattr(self, '_brk_n', 0) + 1
+        flag = 'brk%d_' % self._brk_n
+        setf = ast.Assign(targets=[ast.Name(id=flag, ctx=ast.Store())], value=ast.Constant(value=True))
+        orelse = iff.orelse + st.body[k + 1:]
+        new_if = ast.If(test=iff.test, body=iff.body[:-1] + [setf], orelse=orelse)
+        guard = ast.If(test=ast.UnaryOp(op=ast.Not(), operand=ast.Name(id=flag, ctx=ast.Load())), body=st.body[:k] + [new_if], orelse=[])
+        loop = ast.For(target=st.target, iter=st.iter, body=[guard], orelse=[])
+        init = ast.Assign(targets=[ast.Name(id=flag, ctx=ast.Store())], value=ast.Constant(value=False))
+        for n in (setf, new_if, guard, loop, init):
+            ast.copy_location(n, st)
+            ast.fix_missing_locations(n)
+        return [init, loop]
+
     def for_stmt(self, st, rest, env):
         if all(isinstance(b, (ast.Assert, ast.Pass)) for b in st.body):
             return self.block(rest, env)
+        if any(isinstance(n, ast.Break) for b in st.body for n in ast.walk(b)):
+            rw = self.rewrite_break(st)
+            if rw is not None:
+                return self.block(rw + list(rest), env)
         if not st.orelse and contains_return(st.body):
             # search loop:  for x in L: <assignments>; if cond: return E      (first hit wins)
             last = st.body[-1]
